@@ -134,6 +134,13 @@ def partition_lemmas(I, whole, hits, misses):
                 P = gmode.bigprod(I, Vin, c)
                 q.links.append(z3.Or(z3.And(w >= 0, w < c, Vin(w) == 0),
                                      z3.And(P != 0, gmode.bigprod(I, lambda u: 1 / Vin(u), c) == 1 / P)))
+                # the same in product form, over the reciprocal nodes themselves: (prod of the
+                # nodes) * (prod of their operands) = 1 when every one of them is defined
+                w2 = z3.Int(I.path.fresh_name("w!undefined-reciprocal"))
+                q.add_index(w2, c)
+                Dh = lambda u: spec.den(I, fam.child(I, sh(u)), pt).D
+                q.links.append(z3.Or(z3.And(w2 >= 0, w2 < c, z3.Not(Dh(w2))),
+                                     gmode.bigprod(I, lambda u: V(sh(u)), c) * P == 1))
 
 
 def filter_list(I, sl, cond, env, var):
